@@ -116,6 +116,11 @@ def check_accessor(ctx, rule, label, prog, path, ref, floor_rows=1):
                 if why == 'ERR-OK':
                     ctx.ok(rule + '.reject', key + '|' + str(r.value))
                     continue
+                from .. import absint as _a
+                if str(r.value) == 'Overflow' and _a.PTR_BITS < 64 and d['argset'] and iv_min(d['argset']) > (1 << _a.PTR_BITS) - 1 and major in (2, 3):
+                    # a string longer than the address space of a 32-bit target: the length does not fit usize
+                    ctx.ok(rule + '.lenconv', key + '|usize', nontrivial=False)
+                    continue
                 ctx.violation(rule + '.reject', '%s|rejects|major%d' % (label, major), 'well-formed head %s (argument %s) yields Err(%s)' % (iv_str(part), iv_str(d['argset']) if d['argset'] else '-', r.value), where)
                 continue
             if bad_flags:
